@@ -1,13 +1,13 @@
 SPECIFICATION MCSpec
 CONSTANTS
-  U = 8
-  MaxOps = 24
-  FailCs = {}
-  FailNs = {}
-  PruneTs = {}
+  U = 9
+  MaxOps = 6
+  FailCs = {1}
+  FailNs = {2}
+  PruneTs = {150}
   RgsSnaps = {}
-  ResolveCs = {1}
-  WithReload = FALSE
+  ResolveCs = {}
+  WithReload = TRUE
 CONSTRAINT Bound
 VIEW View
 INVARIANT OnlyAuthentic
